@@ -96,8 +96,11 @@ Do(sc, st0, a) ==
          [] a = "ok-bad"        -> Reply(sc, st, "error", "system.internalError", FALSE)   \* unmarshalable result
          [] a = "resource"      -> Reply(sc, st, "resource", "", m)
          [] a = "resource-bad"  -> Panic(st, "other")                                      \* invalid rid
-         [] a = "error-res"     -> Reply(sc, st, "error", "custom.error", m)
-         [] a = "error-plain"   -> Reply(sc, st, "error", "system.internalError", m)
+         [] a \in {"error-res", "error-res-ctl"}     -> Reply(sc, st, "error", "custom.error", m)
+         [] a \in {"error-plain", "error-plain-ctl"} -> Reply(sc, st, "error", "system.internalError", m)
+         [] a = "invalidparams-ctl" -> Reply(sc, st, "error", "system.invalidParams", m)
+         [] a = "invalidquery-ctl"  -> Reply(sc, st, "error", "system.invalidQuery", m)
+         [] a = "panic-str-ctl"     -> Panic(st, "other")
          [] a = "notfound"      -> Reply(sc, st, "error", "system.notFound", m)
          [] a = "methodnotfound"-> Reply(sc, st, "error", "system.methodNotFound", m)
          [] a = "invalidparams" -> Reply(sc, st, "error", "system.invalidParams", m)
